@@ -16,11 +16,13 @@ chunk = KaniUnit("c12_chunk", APP,
                              subst=[("queries.len()", "len"), ("self.parallelism", "parallelism")])],
                  modules=[dict(file=CA, src="c12_chunk.rs"), dict(file=CA, src="app_wit.rs")],
                  harnesses=[H("c12_chunk_size_nonzero", "complete", "CompassApp::run: chunk size != 0 for every batch size (u32) and parallelism >= 1 (u16) -- par_chunks(0) panics", timeout=200)])
-chunk.native_witnesses = ['c12_wit_empty_batch']
+chunk.native_witnesses = ['c12_wit_empty_batch', 'c12_wit_rejected_only_batches']
 msv = VerusUnit("c17_multiset", "c17_multiset", rlimit=60, paired_kani=(msk, []))
-UNITS = [msv, msk, chunk]
+gr = VerusUnit("c15_graph", "c15_graph", rlimit=60)
+UNITS = [msv, gr, msk, chunk]
 EXPLANATION = ("whole-application panic freedom / boundedness is outside both back ends (rayon, serde_json, plugins, files). Decided: kernels the statement names -- MultiSet (Verus, any number of axes: "
                "the iterator is the mixed-radix successor and stops after the last tuple; expression-level obligation for `len - 1`), the chunk-size expression of CompassApp::run against rayon's par_chunks(0) panic, "
-               "TerminationModel panic freedom (C10), Yen's spur range (C13)")
+               "Graph::out_edges_iter / in_edges_iter answer a vertex id outside the graph with no edges instead of an index panic (Verus, unit c15_graph), "
+               "TerminationModel panic freedom (C10), Yen's spur range and no-progress loop (C13, fixed)")
 NOT_DECIDED = "everything between these kernels: plugins over serde_json values (inject, grid search mapping, json_array_flatten), a panic in a rayon worker through any path not listed, memory / wall-clock bounds of a batch"
 ASSUMPTIONS = ["rayon::par_chunks(n) panics iff n == 0 (documented)", "assumed helper contracts of the MultiSet unit (gather / zero prefix / final_pos)"]
